@@ -12,7 +12,7 @@ from hypothesis import strategies as st
 from vlib.core import Clause, Enumerated, Violation, Reject
 from vlib.q import Q
 
-from audiolazy import Streamix, ControlStream, Stream
+from audiolazy import Streamix, ControlStream, Stream, thub, z, Poly, window
 
 ID = "C16"
 RULE = ("cases = mixer histories (keep, zero value, then steps add(delta, data) / "
@@ -21,7 +21,13 @@ RULE = ("cases = mixer histories (keep, zero value, then steps add(delta, data) 
         "and of an expression built on it) drawn by Hypothesis, long runs of equal "
         "fractional deltas (drift), mixes of three and more tagged events under zero values whose "
         "+ is exact but not commutative (tuples, strings, integer affine maps), and an exhaustive "
-        "grid of two-/three-event mixes; "
+        "grid of two-/three-event mixes; event data of every iterable kind (list, tuple, iterator, generator, "
+        "__getitem__-only sequence, plain and mapped Stream, a finite Streamix of its own, user Stream "
+        "subclasses whose __iter__ transforms / skips / replaces what they store, tee hubs from thub - one "
+        "hub added once, twice or three times, further uses of it kept outside the mixer and read before or "
+        "after the mix); ControlStream values of every kind (numbers, None, strings, tuples, types, "
+        "functions, bound methods, callable objects such as filters and polynomials, objects without a useful "
+        "==; objects compared by identity), read directly or through expressions that box, pair or call them; "
         "oracle = MixerRef (exact cumulative times, nearest-sample start not before the "
         "addition, per-sample sum taken in the order the events start - ties in the order they "
         "were added -, end rule) compared sample by sample in exact arithmetic; "
@@ -36,6 +42,8 @@ ASSUMPTIONS = [
   "event data are finite iterables whose items support + with the zero value",
   "'the zero value plus the items due at n of every event i': for a + that is not commutative the items are added to the zero value from the left to the right in the order of the start times T_i (non-decreasing in i, so this is the order of addition)",
   "after the mixer has ended (keep off) it stays ended, whatever is added later",
+  "an event's items are what iter(data) delivers at the time of the add(): for a StreamTeeHub that is one of its copies per add() (every copy is the whole data, whatever the other copies do), for a Stream subclass that defines __iter__ it is that iteration",
+  "a ControlStream value that is an object (type, function, callable or opaque object) must come back as the very same object; data values are compared by type and ==",
 ]
 
 CAP = 4000   # hard bound on samples pulled in one case
@@ -210,6 +218,75 @@ class MixerRef(object):
     return ("item", v)
 
 
+class GetItemOnly(object):
+  """Iterable through the old sequence protocol only (__getitem__ from 0 until IndexError)."""
+
+  def __init__(self, items):
+    self.items = list(items)
+
+  def __getitem__(self, idx):
+    return self.items[idx]
+
+
+class UnboxStream(Stream):
+  """User Stream subclass whose iteration transforms what it stores: the constructor is given
+  one-item lists, the stream's items are their contents."""
+
+  def __iter__(self):
+    for el in self._data:
+      yield el[0]
+
+
+class SkipHeadStream(Stream):
+  """User Stream subclass whose iteration leaves out a header record kept in front of the items."""
+
+  def __iter__(self):
+    first = True
+    for el in self._data:
+      if first:
+        first = False
+        continue
+      yield el
+
+
+class LiveStream(Stream):
+  """User Stream subclass that is iterated from an attribute which the program may replace (the
+  ChangeableStream of examples/keyboard.py); what the base constructor was given is a stub."""
+
+  def __init__(self, items):
+    super(LiveStream, self).__init__([])
+    self.live = list(items)
+
+  def __iter__(self):
+    for el in self.live:
+      yield el
+
+
+class _Header(object):
+  """Not a sample: supports no +."""
+
+
+def _neutral(x):
+  """Neutral element of + for the real item x, of x's own type."""
+  if isinstance(x, Vec):
+    return Vec([_neutral(i) for i in x.items])
+  if isinstance(x, Aff):
+    return Aff(1, 0)
+  if isinstance(x, Q):
+    return Q(0)
+  return type(x)()            # int 0, float 0.0, str "", tuple ()
+
+
+def _nested_mixer(xs):
+  """A finite Streamix of its own that plays exactly the items xs (two events back to back)."""
+  xs = list(xs)
+  inner = Streamix(zero=_neutral(xs[0])) if xs else Streamix()
+  h = len(xs) // 2
+  inner.add(0, xs[:h])
+  inner.add(h, iter(xs[h:]))
+  return inner
+
+
 _DATA_KINDS = {
   "list": lambda xs: list(xs),
   "tuple": lambda xs: tuple(xs),
@@ -217,7 +294,14 @@ _DATA_KINDS = {
   "gen": lambda xs: (x for x in list(xs)),
   "stream": lambda xs: Stream(list(xs)),
   "mapped": lambda xs: Stream(list(xs)).map(lambda v: v),
+  "getitem": lambda xs: GetItemOnly(xs),
+  "thub1": lambda xs: thub(list(xs), 1),
+  "sub_unbox": lambda xs: UnboxStream([[x] for x in xs]),
+  "sub_skip": lambda xs: SkipHeadStream([_Header()] + list(xs)),
+  "sub_live": lambda xs: LiveStream(xs),
+  "mix": _nested_mixer,
 }
+_OWN_ITER = ("thub1", "sub_unbox", "sub_skip", "sub_live")     # Stream subclasses with their own __iter__
 
 
 def run_mixer(case):
@@ -279,25 +363,76 @@ def run_mixer(case):
     check_item(got, tag)
     return True
 
+  def do_add(delta, data, payload, kind):
+    was_ended = ref.ended
+    late0, ties0 = ref.late, ref.ties
+    mix.add(delta, payload)
+    ref.add(delta, data)
+    if was_ended:
+      labels.add("add after the end")
+    else:
+      if ref.late > late0:
+        labels.add("late add")
+      if ref.ties > ties0 and delta != 0:
+        labels.add("fractional tie")
+      if not data:
+        labels.add("empty event")
+      labels.add("delta:" + ("zero" if delta == 0 else type(delta).__name__))
+      labels.add("data:" + kind)
+      if data and (kind in _OWN_ITER or kind == "hub"):
+        labels.add("event is a Stream subclass with its own __iter__")
+
+  def same_items(got, data):
+    return len(got) == len(data) and all(vs.eq(g, e) for g, e in zip(got, data))
+
+  hubs = []     # every tee hub of the case: dict(hub, data, left = planned uses not yet made, outside iterator)
+
   for stp in case["steps"]:
     op = stp[0]
     if op == "add":
       delta, data, kind = stp[1], stp[2], stp[3]
       hist.append("add(%r, %s%r)@%d" % (delta, kind, data, ref.pos))
-      was_ended = ref.ended
-      late0, ties0 = ref.late, ref.ties
-      mix.add(delta, _DATA_KINDS[kind]([vs.real(x) for x in data]))
-      ref.add(delta, data)
-      if was_ended:
-        labels.add("add after the end")
-      else:
-        if ref.late > late0:
-          labels.add("late add")
-        if ref.ties > ties0 and delta != 0:
-          labels.add("fractional tie")
-        if not data:
-          labels.add("empty event")
-        labels.add("delta:" + ("zero" if delta == 0 else type(delta).__name__))
+      do_add(delta, data, _DATA_KINDS[kind]([vs.real(x) for x in data]), kind)
+    elif op == "add_hub":
+      # an event that is a StreamTeeHub: every use of the hub - an add() to this mixer, or a use
+      # outside of it - is one independent copy of the data
+      delta, data, uses, outside, delta2 = stp[1], stp[2], stp[3], stp[4], stp[5]
+      if delta2 is not None:
+        uses = max(uses, 2)
+      hist.append("add(%r, hub%d%s%r)@%d" % (delta, uses, "+" + outside if outside else "", data, ref.pos))
+      hub = thub([vs.real(x) for x in data], uses + (1 if outside else 0))
+      rec = dict(hub=hub, data=data, left=uses, other=None)
+      hubs.append(rec)
+      if outside == "before":          # the other user reads its copy to the end first
+        got = list(hub)
+        if not same_items(got, data):
+          fail("a copy of thub(%r) read outside the mixer gave %r" % (data, got))
+      elif outside == "early":
+        rec["other"] = iter(hub)
+      do_add(delta, data, hub, "hub")
+      rec["left"] -= 1
+      if outside == "late":
+        rec["other"] = iter(hub)
+      if outside:
+        labels.add("hub also used outside the mixer")
+      if delta2 is not None:
+        hist.append("add(%r, the same hub)@%d" % (delta2, ref.pos))
+        do_add(delta2, data, hub, "hub")
+        rec["left"] -= 1
+        if data and not ref.ended:
+          labels.add("same hub added twice")
+    elif op == "add_again":
+      # the most recent hub that has a planned use left is added once more (an echo)
+      delta = stp[1]
+      rec = ([r for r in hubs if r["left"] > 0] or [None])[-1]
+      if rec is None:
+        hist.append("(no hub to add again)")
+        continue
+      hist.append("add(%r, hub %r again)@%d" % (delta, rec["data"], ref.pos))
+      do_add(delta, rec["data"], rec["hub"], "hub")
+      rec["left"] -= 1
+      if rec["data"] and not ref.ended:
+        labels.add("same hub added twice")
     elif op == "add_chain":
       # an event that, when it is exhausted, schedules the next event itself (an add() issued
       # from inside the mixer's own summation, as in a sequencer whose notes chain each other)
@@ -384,6 +519,18 @@ def run_mixer(case):
       pull_one("after the end")
   if vs is Vectors and not vs.eq(zero_r, zero_m):
     fail("the zero value object was modified: now %r" % (zero_r,))
+  # the uses of a hub that did not go to the mixer are whole: an event plays one copy of its data,
+  # not the source underneath the copies
+  for rec in hubs:
+    if rec["other"] is not None:
+      got = list(rec["other"])
+      if not same_items(got, rec["data"]):
+        fail("the copy of thub(%r) used outside the mixer gave %r after the mix" % (rec["data"], got))
+    while rec["left"] > 0:
+      rec["left"] -= 1
+      got = list(rec["hub"])
+      if not same_items(got, rec["data"]):
+        fail("a copy of thub(%r) not handed to the mixer gave %r after the mix" % (rec["data"], got))
   if overlap[0]:
     labels.add("overlap")
   # the order of the sum is on show when + is order-sensitive and an event ends while two or
@@ -536,11 +683,91 @@ EXPRS = {
   "2*cs-data": (lambda cs, data: 2 * cs - data, lambda v, x: 2 * v - x),
   "neg": (lambda cs, data: -cs, lambda v, x: -v),
   "list+cs": (None, lambda v, x: x + v),     # finite list operand, see run_control
+  # expressions that make sense for a control value of any kind
+  "box": (lambda cs, data: cs.map(lambda v: (v,)), lambda v, x: (v,)),
+  "pair": (lambda cs, data: Stream(zip(cs, data)), lambda v, x: (v, x)),
+  # the control value selects what is applied to the data, sample by sample
+  "call": (lambda cs, data: Stream(f(x) for f, x in zip(cs, data)), lambda v, x: v(x)),
 }
+_NUM_EXPRS = sorted(set(EXPRS) - set(["box", "pair", "call"]))
+
+
+# control values that are objects rather than data: a case names them ("obj", name); they are
+# compared by identity.  Most of them happen to be callable.
+def _fn0():
+  return 42
+
+
+def _fn1(x):
+  return (x, "fn1")
+
+
+def _genfunc():
+  yield 1
+
+
+class _Call0(object):
+  def __call__(self):
+    return "called"
+
+
+class _Call1(object):
+  def __call__(self, x):
+    return [x]
+
+
+class _Plain(object):
+  pass
+
+
+_CS_OBJ = {
+  # types
+  "int": int, "float": float, "str": str, "tuple": tuple, "type": type, "Q": Q, "Fraction": Fraction,
+  "ValueError": ValueError, "Stream": Stream, "ControlStream": ControlStream, "Plain": _Plain,
+  # functions
+  "fn0": _fn0, "fn1": _fn1, "lambda0": (lambda: 0), "lambda1": (lambda x: -x), "genfunc": _genfunc,
+  "abs": abs, "len": len, "hann": window.hann, "bound0": [3, 1, 2].copy, "bound1": "abc".count,
+  # callable objects
+  "call0": _Call0(), "call1": _Call1(), "zfilter": 1 - z ** -1, "zfilter2": 1 / (1 - .5 * z ** -1),
+  "poly": Poly({0: 1, 2: 3}), "window": window,
+  # objects that are not callable and have no useful ==
+  "object": object(), "plain": _Plain(), "list": [1, 2], "dict": {}, "stream": Stream([1, 2]),
+  "gen": _genfunc(), "nan": float("nan"),
+}
+_CS_IDS = dict((id(v), k) for k, v in _CS_OBJ.items())
+_CS_ONEARG = ["int", "float", "str", "Q", "Fraction", "fn1", "lambda1", "abs", "call1"]
+
+
+def _cs_kind(v):
+  if id(v) not in _CS_IDS:
+    return None
+  if isinstance(v, type):
+    return "type"
+  if not callable(v):
+    return "opaque object"
+  return "function" if type(v).__name__ in ("function", "builtin_function_or_method", "method") \
+    else "callable object"
+
+
+def _cs_real(v):
+  if type(v) is tuple and len(v) == 2 and v[0] == "obj":
+    return _CS_OBJ[v[1]]
+  return v
+
+
+def samev(got, exp):
+  """The value read is the value assigned: identity for objects, type and == for data."""
+  if got is exp:
+    return True
+  if id(exp) in _CS_IDS:
+    return False
+  if type(exp) is tuple:
+    return type(got) is tuple and len(got) == len(exp) and all(samev(a, b) for a, b in zip(got, exp))
+  return type(got) is type(exp) and bool(got == exp)
 
 
 def run_control(case):
-  cur = case["init"]
+  cur = _cs_real(case["init"])
   cs = ControlStream(cur)
   expr = case["expr"]
   res = None
@@ -567,9 +794,9 @@ def run_control(case):
   for stp in case["steps"]:
     op = stp[0]
     if op == "set":
-      cur = stp[1]
+      cur = _cs_real(stp[1])
       cs.value = cur
-      hist.append("value=%r" % (cur,))
+      hist.append("value=%r" % (stp[1],))
       assigned_since_read = True
       continue
     how, k = stp[1], stp[2]
@@ -595,16 +822,20 @@ def run_control(case):
     else:
       exp = [cur] * k
     if not (isinstance(got, list) and len(got) == len(exp)
-            and all(same1(a, b) for a, b in zip(got, exp))):
+            and all(samev(a, b) for a, b in zip(got, exp))):
       fail("read gave %r, the value most recently assigned is %r (expected %r)" % (got, cur, exp))
     if k:
+      if _cs_kind(cur):
+        labels.add("value read:" + _cs_kind(cur))
+        if callable(cur):
+          labels.add("callable value read")
       if assigned_since_read and reads:
         nontrivial = True
         labels.add("assignment between reads")
       assigned_since_read = False
       reads += 1
       labels.add("read:" + how)
-  if cs.value is not cur and not same1(cs.value, cur):
+  if not samev(cs.value, cur):
     fail("cs.value is %r at the end" % (cs.value,))
   # what was derived from the ControlStream keeps yielding the last assigned value after the
   # program drops its own reference to the ControlStream object
@@ -617,7 +848,7 @@ def run_control(case):
   except StopIteration:
     fail("the stream derived from the ControlStream ended once the ControlStream object itself was released")
   exp = [g(cur, period[(j + i) % len(period)]) for i in range(3)] if expr is not None else [cur] * 3
-  if not all(same1(a, b) for a, b in zip(tail, exp)):
+  if not all(samev(a, b) for a, b in zip(tail, exp)):
     fail("after the ControlStream object was released the derived stream gave %r, expected %r" % (tail, exp))
   labels.add("owner released")
   return {"nontrivial": nontrivial, "labels": sorted(labels)}
@@ -642,6 +873,7 @@ _delta_float = st.one_of(
 _delta_int = st.integers(0, 5)
 _neg_delta = st.one_of(st.integers(-3, -1), _q(-3, Fraction(-1, 7), 7), st.sampled_from([-.5, -1e-9, -2.]))
 _kinds = st.sampled_from(sorted(_DATA_KINDS))
+_outside = st.sampled_from([None, None, "before", "early", "late"])
 
 
 def _steps(delta, val, maxlen, maxdata):
@@ -653,10 +885,14 @@ def _steps(delta, val, maxlen, maxdata):
   chain = st.tuples(st.just("add_chain"), delta, st.lists(val, max_size=maxdata), delta,
                     st.lists(val, min_size=1, max_size=maxdata))
   setkeep = st.tuples(st.just("setkeep"), st.booleans())
+  hub = st.tuples(st.just("add_hub"), delta, st.lists(val, max_size=maxdata), st.integers(1, 3), _outside,
+                  st.one_of(st.none(), delta))
+  again = st.tuples(st.just("add_again"), delta)
   table = {"add": add, "neg": neg, "next": nxt, "for": loop, "take": take, "add_chain": chain,
-           "setkeep": setkeep}
+           "setkeep": setkeep, "add_hub": hub, "add_again": again}
   # (one_of() would merge repeated alternatives, so the weights go through sampled_from)
-  names = ["add"] * 7 + ["next"] * 2 + ["for", "take", "neg", "add_chain", "setkeep"]
+  names = (["add"] * 7 + ["next"] * 2 + ["for", "take", "neg", "add_chain", "setkeep"]
+           + ["add_hub"] * 2 + ["add_again"] * 2)
   return st.lists(st.sampled_from(names).flatmap(lambda nm: table[nm]), max_size=maxlen)
 
 
@@ -725,6 +961,8 @@ def _ordered_case(raw):
       steps.append(("add", stp[1], items(stp[2], stp[4]), stp[3]))
     elif stp[0] == "add_chain":
       steps.append(("add_chain", stp[1], items(stp[2], stp[5]), stp[3], items(stp[4], stp[5] + 1)))
+    elif stp[0] == "add_hub":
+      steps.append(("add_hub", stp[1], items(stp[2], stp[6]), stp[3], stp[4], stp[5]))
     else:
       steps.append(stp)
   case = dict(keep=raw["keep"], zero=_ORD_ZEROS[flavour][raw["zsel"]], ctor=raw["ctor"], steps=steps)
@@ -747,8 +985,12 @@ def strat_ordered(tier):
     "take": st.tuples(st.just("take"), st.integers(0, 5)),
     "neg": st.tuples(st.just("neg"), _neg_delta, st.just([])),
     "setkeep": st.tuples(st.just("setkeep"), st.booleans()),
+    "add_hub": st.tuples(st.just("add_hub"), later, st.integers(0, 8), st.integers(1, 3), _outside,
+                         st.one_of(st.none(), later), salt),
+    "add_again": st.tuples(st.just("add_again"), later),
   }
-  names = ["add"] * 6 + ["next"] * 3 + ["take"] * 2 + ["for", "add_chain", "neg", "setkeep"]
+  names = (["add"] * 6 + ["next"] * 3 + ["take"] * 2 + ["for", "add_chain", "neg", "setkeep"]
+           + ["add_hub"] * 2 + ["add_again"] * 2)
   raw = st.fixed_dictionaries(dict(
     flavour=st.sampled_from(["tuple", "tuple", "str", "str", "affine"]),
     keep=st.booleans(), zsel=st.integers(0, 2), ctor=st.sampled_from(["kw", "pos", "mixed"]),
@@ -792,6 +1034,10 @@ def strat_control(tier):
   num = st.one_of(st.integers(-9, 9), _q(-3, 3, 5))
   anyv = st.one_of(num, st.none(), st.text("ab", max_size=2), st.tuples(st.integers(0, 2)),
                    st.sampled_from([0., 1.5]))
+  objv = st.sampled_from(sorted(_CS_OBJ)).map(lambda name: ("obj", name))
+  # (weights through sampled_from: one_of() would merge the repeated alternative)
+  mixv = st.sampled_from(["obj", "obj", "obj", "any"]).flatmap(lambda nm: objv if nm == "obj" else anyv)
+  onearg = st.sampled_from(_CS_ONEARG).map(lambda name: ("obj", name))
   hows = st.sampled_from(["take", "take1", "next", "for"])
 
   def steps(val):
@@ -802,9 +1048,20 @@ def strat_control(tier):
     return st.lists(st.sampled_from(names).flatmap(lambda nm: table[nm]), max_size=maxlen)
   plain = st.fixed_dictionaries(dict(init=anyv, expr=st.none(), data=st.just([0]), steps=steps(anyv)))
   withx = st.fixed_dictionaries(dict(
-    init=num, expr=st.sampled_from(sorted(EXPRS)),
+    init=num, expr=st.sampled_from(_NUM_EXPRS),
     data=st.lists(st.integers(-5, 5), min_size=1, max_size=3), steps=steps(num)))
-  return st.one_of(plain, withx, withx)
+  # values of any kind - types, functions, callable objects, objects without a useful == -, read
+  # from the stream itself or through an expression that does not compute with them
+  plainobj = st.fixed_dictionaries(dict(init=mixv, expr=st.none(), data=st.just([0]), steps=steps(mixv)))
+  objx = st.fixed_dictionaries(dict(
+    init=mixv, expr=st.sampled_from(["box", "pair"]),
+    data=st.lists(st.integers(-5, 5), min_size=1, max_size=3), steps=steps(mixv)))
+  callx = st.fixed_dictionaries(dict(
+    init=onearg, expr=st.just("call"),
+    data=st.lists(st.integers(-5, 5), min_size=1, max_size=3), steps=steps(onearg)))
+  fam = {"plain": plain, "withx": withx, "plainobj": plainobj, "objx": objx, "callx": callx}
+  names = ["plain"] * 2 + ["withx"] * 5 + ["plainobj"] * 2 + ["objx"] * 2 + ["callx"]
+  return st.sampled_from(names).flatmap(lambda nm: fam[nm])
 
 
 def grid(tier, shard, nshards):
@@ -818,11 +1075,21 @@ def grid(tier, shard, nshards):
     for d1 in deltas:
       for l0 in lens:
         for l1 in lens:
-          for mode in range(6):
+          for mode in range(8):
             i += 1
             if i % nshards != shard:
               continue
             keep = bool(mode & 1)
+            if mode >= 6:
+              # the first event is a tee hub that is added a second time (an echo d1 later), one
+              # more use of the hub stays outside the mixer; the third event is a user Stream
+              # subclass with an iteration of its own
+              outside = ("early", "late", "before")[(l0 + l1) % 3]
+              steps = [("add_hub", d0, [Q(1), Q(2), Q(4)][:l0 + 1], 2, outside, None), ("next", l1),
+                       ("add_again", d1),
+                       ("add", Q(1, 2), [Q(100)] * l1, ("sub_unbox", "sub_skip", "sub_live")[l0])]
+              yield dict(keep=keep, zero=Q(0) if l1 else 0, ctor="kw", steps=steps)
+              continue
             a0 = ("add", d0, [Q(1)] * l0, "list")
             a1 = ("add", d1, [Q(10)] * l1, "gen")
             a2 = ("add", Q(1, 2), [Q(100)], "iter")
@@ -839,18 +1106,22 @@ CLAUSES = [
   Clause("mixer", strat_mixer, run_mixer, quick=4000, thorough=50000,
          floors={"late add": .04, "overlap": .1, "empty event": .1, "fractional tie": .05,
                  "keep": .15, "negative delta": .08, "ended": .15, "delta:float": .03,
-                 "delta:Q": .1, "delta:int": .08},
+                 "delta:Q": .1, "delta:int": .08,
+                 "event is a Stream subclass with its own __iter__": .12, "same hub added twice": .05,
+                 "hub also used outside the mixer": .05, "data:mix": .03, "data:getitem": .03},
          doc="mixer histories (additions before and during playback, keep on/off, zero values, "
              "delta types) vs MixerRef, sample by sample"),
   Clause("ordered", strat_ordered, run_mixer, quick=1500, thorough=15000,
          floors={"summation order observable": .15, "three or more play at once": .25, "late add": .05,
-                 "order-sensitive +:tuple": .1, "order-sensitive +:str": .1, "order-sensitive +:Aff": .05},
+                 "order-sensitive +:tuple": .1, "order-sensitive +:str": .1, "order-sensitive +:Aff": .05,
+                "event is a Stream subclass with its own __iter__": .25, "same hub added twice": .04,
+                "hub also used outside the mixer": .05},
          doc="mixes of three and more tagged events under a zero value whose + is exact but not commutative "
              "(tuple and str concatenation, composition of integer affine maps), earlier events often "
              "ending while later ones go on, additions during playback: the sum is zero + items in the "
              "order the events start (ties: order of addition)"),
   Clause("vector", strat_vector, run_mixer, quick=600, thorough=6000,
-         floors={"overlap": .06, "late add": .04},
+         floors={"overlap": .06, "late add": .04, "event is a Stream subclass with its own __iter__": .1},
          doc="the same with an array-like zero/sample type whose += works in place "
              "(zero + items must not modify the zero value)"),
   Clause("shared_source", strat_shared, run_shared, quick=400, thorough=4000,
@@ -861,7 +1132,8 @@ CLAUSES = [
          doc="30-400 equal fractional deltas: every start sample equals the closed form "
              "nearest(d0 + i*d)"),
   Clause("control", strat_control, run_control, quick=2000, thorough=20000,
-         floors={"assignment between reads": .1},
+         floors={"assignment between reads": .1, "callable value read": .07, "value read:type": .03,
+                 "value read:function": .03, "value read:callable object": .025},
          doc="ControlStream: assignments interleaved with reads of the stream and of an "
              "expression built on it"),
   Enumerated("grid", grid, run_mixer, shards={"quick": 4, "thorough": 8},
